@@ -614,6 +614,8 @@ fn src_hint(id: u32) -> (usize, Option<usize>) {
             (usize::MAX, None)
         } else if c.closed {
             (c.avail as usize, Some(c.avail as usize))
+        } else if w.src_promise {
+            ((c.avail as usize).max(1), None)
         } else {
             (c.avail as usize, None)
         }
